@@ -144,6 +144,16 @@ def render(st: dict[str, Any], sp: Speller) -> str:
         return f"{kw('CREATE TABLE')} {ref(st['ref'])} {kw('AS SELECT')} * {kw('FROM')} {ref(st['src'])}{where()}"
     if t == "clone":
         return f"{kw('CREATE TABLE')} {ref(st['ref'])} {kw('CLONE')} {ref(st['src'])}"
+    if t in ("begin", "commit", "rollback"):
+        return kw(t.upper())
+    if t == "set_var":
+        return f"{kw('SET')} {sp.ident(st['name'])} = {lit(st['value'])}"
+    if t == "unset_var":
+        return f"{kw('UNSET')} {sp.ident(st['name'])}"
+    if t == "select_var":
+        return f"{kw('SELECT')} " + ", ".join("$" + sp.ident(n) for n in st["names"])
+    if t == "raw_fail":
+        return st["sql"]
     raise ValueError(f"cannot render {t}")
 
 
